@@ -3,6 +3,8 @@
 //! Usage: vmon <ID> --tier quick|thorough --seed N [--jobs N] [--lane L] [--replay FILE] [--k v ...]
 
 mod fw;
+mod interp;
+mod keccak;
 mod props;
 
 use fw::*;
